@@ -1,16 +1,35 @@
 # C13 — Tuple sketches keep theta-sketch keys and exact per-key summaries
 #
-# Mutations confirmed caught / harmless rewrites tolerated: see the list at the end of this comment block
-# (filled in after the mutation runs).
+# Mutations confirmed caught (scratch worktree /tmp/wt_tuple, VERIF_REPO, VERIF_SEED=1; every one printed VIOLATION with a replay):
+#   M1  theta_union_base::update: table_.insert(..., std::move(entry)) also for lvalue inputs (the caller's sketch is robbed of its
+#       summaries)                                                    -> compact_differs / query_changed (poisoned summary [-99] in the source)
+#   M2  tuple_union internal_policy (rvalue overload): arguments swapped                         -> union_summary
+#   M2b tuple_union internal_policy (lvalue overload): arguments swapped (result = comb(incoming, internal)) -> union_summary
+#   M3  theta_intersection_base: matched_entries.push_back(entry) — the incoming instead of the combined summary -> inter_summary
+#   M4  compact_tuple_sketch::filter: predicate negated                                         -> filter_keys / filter_empty
+#   M5  update_tuple_sketch::update: first value not applied after create()                      -> summary_not_fold
+#   M6  update_tuple_sketch::update: update() on a repeated key dropped                          -> summary_not_fold
+#   M7  theta_set_difference_base (hash path): `if (result.second)` keeps the matches            -> anotb_keys
+#   M8  compact_tuple_sketch(theta_sketch, summary, ordered): never sorts                        -> ordered_not_sorted
+#   M9  filter: is_empty = entries.empty() (ignores estimation mode)                             -> filter_empty
+#   M10 theta_intersection_base: policy applied to a copy of the internal entry                  -> inter_summary
+#   M11 theta_union_base::get_result: the `< theta` filter dropped (key_not_zero instead of key_not_zero_less_than) -> key_not_below_theta / union_keys
+#       (needed inputs of different lg_k and unions larger than their inputs: generator extended after the first run missed it)
+#   M12 compact_tuple_sketch(const Base&, ordered): sorts only when the source is already ordered -> ordered_not_sorted
+# Harmless rewrites confirmed tolerated (exit 0):
+#   H1  theta_union_base::update always copies the incoming entry (no conditional_forward)
+#   H2  STRIDE_HASH_BITS 7 -> 8 (different slot order in every table)
+#   H3  theta_union_base::get_result: std::sort instead of std::nth_element
+#   H4  theta_intersection_base: matched entries copied instead of moved
 import struct
 
 PROP = "C13"
-READY = False
+READY = True
 COQ_PROPS = ['Properties_C13']
 RULE = ('operation scripts over registers holding update_tuple_sketch / compact_tuple_sketch / tuple_union / tuple_intersection objects in two flavours: '
         'an instrumented "log" summary (records the create mark, every value in arrival order and every combine with its operand: non-commutative, so order '
-        'and exactly-once matter; moved-from summaries are poisoned; values offered as lvalues or as rvalues of a move-only type) and array_of_doubles '
-        '(1..3 columns). lg_k 5..7 (12 sometimes in thorough), all resize factors, p in {1, 0.5, 0.1}, key streams with heavy repetition through every '
+        'and exactly-once matter; moved-from summaries are poisoned; values offered as lvalues or as rvalues of a move-only type), an arithmetic '
+        'summary (update_tuple_sketch<int64_t> with the DEFAULT update/union policies) and array_of_doubles (1..3 columns). lg_k 5..7 (12 sometimes in thorough), all resize factors, p in {1, 0.5, 0.1}, key streams with heavy repetition through every '
         'update overload, lengths aimed at resize / rebuild thresholds, trim / reset / compact(ordered or not) / copy / filter interleaved; then set '
         'operations over the registers in every input form (update sketch, ordered / unordered compact, filter result, compact_tuple_sketch built from a '
         'Theta sketch, results of earlier set operations), as lvalues and as rvalues (moved copies), unions smaller than their inputs so that trimming '
@@ -59,7 +78,7 @@ class G:
         self.ctr += 1
         if self.pol == 0:
             return [self.ctr]
-        return [self.rng.randrange(0, 20) for _ in range(self.pol)]
+        return [self.rng.randrange(0, 20) for _ in range(abs(self.pol))]
     def tmp(self):
         self.next_tmp += 1
         return self.next_tmp
@@ -72,7 +91,7 @@ class G:
         z = rng.random()
         if theta_reg is not None and z < 0.12:
             t = self.tmp()
-            v = [rng.randrange(50)] if self.pol == 0 else [rng.randrange(9) for _ in range(self.pol)]
+            v = [rng.randrange(50)] if self.pol == 0 else [rng.randrange(9) for _ in range(abs(self.pol))]
             self.ops.append([10, theta_reg, t, rng.randrange(2), rng.randrange(3), self.pol] + v)
             self.tags.add('theta-operand')
             return t
@@ -96,10 +115,10 @@ class G:
 
 def gen(rng, tier):
     quick = (tier == 'quick')
-    ncases = 70 if quick else 900
+    ncases = 110 if quick else 1200
     cases = []
     for ci in range(ncases):
-        pol = 0 if rng.random() < 0.7 else rng.choice([1, 2, 3])
+        pol = 0 if rng.random() < 0.6 else rng.choice([-1, -1, 1, 2, 3])
         g = G(rng, pol)
         lgk = rng.choice([5, 5, 5, 6, 6, 7]) if (quick or ci % 40) else 12
         k = 1 << lgk
@@ -111,12 +130,13 @@ def gen(rng, tier):
         for r in sk:
             sd = seed if (rng.random() < 0.93 or r == 0) else seed + 1
             if sd != seed: g.tags.add('seed-mismatch')
-            g.ops.append([1, r, pol, lgk, rng.randrange(4), pb if rng.random() < 0.8 else P_ONE, sd])
+            lgr = lgk if (lgk > 7 or rng.random() < 0.6) else rng.choice([lgk + 1, max(5, lgk - 1), 5])   # inputs of different sizes
+            g.ops.append([1, r, pol, lgr, rng.randrange(4), pb if rng.random() < 0.8 else P_ONE, sd])
         if ci % 23 == 5:
             g.ops.append([1, 9, pol, rng.choice([4, 27]), 0, pb, seed])          # refused builder arguments
             g.ops.append([1, 9, 300, lgk, 0, pb, seed])
             g.ops.append([2, 9, 0, 1, 1, 0, 5]); g.ops.append([7, 9]); g.ops.append([5, 9, 8, 1])
-            g.ops.append([2, 0, 0, (pol or 1) + 1] + [1] * ((pol or 1) + 1) + [0, 5])   # wrong number of values
+            g.ops.append([2, 0, 0, (abs(pol) or 1) + 1] + [1] * ((abs(pol) or 1) + 1) + [0, 5])   # wrong number of values
         TH = 50
         g.ops.append([8, TH, lgk, rng.randrange(4), P_ONE if rng.random() < 0.7 else fbits(0.5), seed])
         cap = 15 * k // 8
@@ -159,7 +179,7 @@ def gen(rng, tier):
             kind = rng.choice(['u', 'u', 'i', 'i', 'a'])
             pool = [(r, True) for r in sk] + [(r, False) for r in results]
             if kind == 'u':
-                lgu = rng.choice([5, lgk, lgk, max(5, lgk - 1)])
+                lgu = rng.choice([5, lgk, lgk, max(5, lgk - 1), lgk + 1, lgk + 2])   # smaller: trimming; larger: the table never rebuilds
                 pu = P_ONE if rng.random() < 0.8 else fbits(0.5)
                 g.ops.append([12, UN, pol, lgu, rng.randrange(4), pu, seed])
                 nin = rng.choice([0, 1, 2, 3, 4])
@@ -214,7 +234,7 @@ def parse_dump(R):
         i += 2 + ln
     return d
 
-def create(pol): return [CREATE] if pol == 0 else [0] * pol
+def create(pol): return [CREATE] if pol == 0 else [0] * abs(pol)
 def upd(pol, s, v): return s + v if pol == 0 else [a + b for a, b in zip(s, v)]
 def comb(pol, sep, a, b): return a + [sep] + b if pol == 0 else [x + y for x, y in zip(a, b)]
 def pred(kind, arg, s): return (sum(s) % 3 == arg) if kind == 0 else (arg <= len(s))
@@ -235,8 +255,11 @@ def oracle(case, irecs, mrecs):
         for key in d['keys']:
             if not (0 < key < d['theta']):
                 fail('key_not_below_theta', '%s: retained key %x is not in (0, theta=%x)' % (what, key, d['theta']), i); break
-        if d['empty'] and d['keys']:      # (an empty union built with p < 1 reports its starting theta: not a C13 matter)
+        if d['empty'] and d['keys']:
             fail('empty_not_empty', '%s: is_empty but %d entries' % (what, len(d['keys'])), i)
+        if d['empty'] and d['theta'] != MAX_THETA:
+            # as the Theta operations after fixes/02_union_empty_theta.patch: an empty sketch never carries a sampling theta
+            fail('empty_theta_below_max', '%s: is_empty sketch reports theta %x, not MAX_THETA' % (what, d['theta']), i)
         F = irecs[i].get('F') or []
         if d['ordered'] and any(F[j] >= F[j + 1] for j in range(len(F) - 1)):
             fail('ordered_not_sorted', '%s: is_ordered() but iteration order is not strictly increasing' % what, i)
@@ -451,10 +474,10 @@ def oracle(case, irecs, mrecs):
                     if not st['valid']:
                         st['ents'] = dict((kk, list(s)) for kk, s in src['ents'].items())
                     else:
-                        had = bool(st['ents'])
+                        # (no latching of "no matches in exact mode": later inputs still lower theta — the Theta intersection after
+                        #  fixes/02_intersection_empty_order.patch)
                         st['ents'] = dict((kk, comb(pol, SEP_I, s, src['ents'][kk])) for kk, s in st['ents'].items()
                                           if kk in src['ents'] and kk < st['theta'])
-                        if not st['ents'] and st['theta'] == MAX_THETA: st['empty'] = True
                 st['valid'] = True
             if len(R) == 2 and R[1] != 1:
                 fail('inter_has_result', 'has_result() is false after an update', i)
@@ -474,8 +497,9 @@ def oracle(case, irecs, mrecs):
             if not st['valid']:
                 fail('inter_undefined', 'get_result returned a sketch before any update', i)
             else:
-                if d['empty'] != (1 if st['empty'] else 0):
-                    fail('inter_empty', 'intersection is_empty=%d, expected %d' % (d['empty'], 1 if st['empty'] else 0), i)
+                exp_empty = 1 if (st['empty'] or (not st['ents'] and st['theta'] == MAX_THETA)) else 0
+                if d['empty'] != exp_empty:
+                    fail('inter_empty', 'intersection is_empty=%d, expected %d' % (d['empty'], exp_empty), i)
                 if d['theta'] != st['theta']:
                     fail('inter_theta', 'intersection theta %x, expected the minimum %x' % (d['theta'], st['theta']), i)
                 else:
@@ -514,4 +538,36 @@ def oracle(case, irecs, mrecs):
 
 FAMILIES = [dict(name='tuple', harness='drv_tuple.cpp', extract='Extract_tuple.v', model='model_tuple', gen=gen, oracle=oracle)]
 
-MANIFEST = dict(level_text='', level_note='', design_ref='DESIGN.md section 5 C13')
+MANIFEST = dict(
+    level_text=('Theorems (coq/Properties_C13.v, axiom-free) about the executable model coq/TupleDefs.v (the Theta table of property C01 carrying a summary per key, '
+                'driven by the tuple update policy; compact forms, filter, union on that table, intersection, A-not-B as coded in theta_*_base_impl.hpp), for an '
+                'ARBITRARY summary type, update type and policies create/update/combine (no algebraic law), arbitrary 64-bit hashes (any hash function, any key '
+                'repetition), ANY nth_element meeting its postcondition, any lg_k >= 5 / resize factor / starting theta, EVERY history of update/trim/reset: '
+                '(1) the tuple sketch has the same lg_cur_size, theta, is_empty, num_retained and the same set of keys as a Theta sketch with the same '
+                'configuration fed the same keys (with its own nth_element), and these keys are exactly the distinct non-zero hashes offered below theta, each once; '
+                '(2) the summary of every retained key is the update policy folded over every value offered with that key since the last reset, in arrival '
+                'order, starting from create() — across resize, rebuild, trim and compact (general form: any payload functions, composed in arrival order); '
+                '(3) for any list of well-formed inputs in any form (ordered or not, early stops) and any presentation order: every key of a union result is '
+                'held by a non-empty input and its summary is the first holder\'s summary combined by the policy with the later holders\', in presentation '
+                'order, each exactly once (whatever the union table resized/rebuilt; the union itself is proved identical to the C02 union model at payload '
+                'type S, so the C02 key theorems apply verbatim); every key of an intersection is held by every input and its summary is the fold of the policy '
+                'over the inputs\' summaries starting from the first (the combined summary is kept at each stage); A-not-B returns exactly A\'s (key, summary) '
+                'pairs below min(theta_A, theta_B) whose key B does not hold, by either code path (summaries untouched), and A itself on the early returns; '
+                'filter keeps precisely the entries whose summary satisfies the predicate, keeps theta, and is empty iff nothing is left outside estimation mode; '
+                'one intersection step selects exactly the keys held by both sides below theta (early stop loses nothing); a compact tuple sketch built from a '
+                'Theta sketch has exactly its keys, each with the given summary; the results of filter / union / intersection / A-not-B are well-formed again, '
+                'so the theorems cover arbitrary sequences of set operations; '
+                '(4) array-of-doubles = the column-wise instance (every column of an updated / combined summary is the column sum). '
+                'The model is tied to tuple_sketch_impl.hpp, tuple_union/intersection/a_not_b.hpp, array_tuple_*.hpp and theta_*_base_impl.hpp by running both on the '
+                'same generated scripts with an instrumented non-commutative "log" summary (records create mark, every value, every combine with its operand; '
+                'moved-from summaries poisoned; move-only update values), with an arithmetic summary under the default policies and with array_of_doubles: after every sketch-valued operation theta64, is_empty, is_ordered '
+                'and the sorted (key, summary) pairs are compared exactly, and the property predicates (per-key fold against the hashes the model computed; set '
+                'operations against the set-algebra spec evaluated on the dumps of the operands) are evaluated on the implementation\'s outputs.'),
+    level_note=('Trusted: Coq kernel; hand-written model validated only by the correspondence runs; Murmur3.v / Canon.v (validated by the same runs); nth_element by '
+                'postcondition. Proved for all inputs: items (1)-(4) above about the model. Only compared by the correspondence runs (not proved): theta / emptiness / '
+                'order-flag rules of intersection and A-not-B results beyond what is stated, the is_ordered flags, seed-hash refusals, rvalue (moved) operands behaving '
+                'like lvalue ones, the array-of-doubles C++ types (double arithmetic on small integers). '
+                'Which KEYS union / intersection / A-not-B select is property C02 (the union bridge theorem links the two models; for intersection and A-not-B the C13 '
+                'theorems characterise membership directly). Not claimed: serialization (C09), estimates and bounds (C06), jaccard similarity, corrupted input sketches, '
+                'allocator/value semantics (C19).'),
+    design_ref='DESIGN.md section 5 C13')
